@@ -638,7 +638,7 @@ def scan_v2_paths(elements, labels):
         elif t == "EndScope":
             # (slide only requires the scope to exist in flow_state.scopes, not in this head: no head-level condition here)
             push((pos + 1, scopes - {e.name}, catch))
-        elif t == "SpecOp" and e.op == "match":
+        elif t == "SpecOp":
             push((pos + 1, scopes, catch))
             fail()
         else:
@@ -1103,6 +1103,11 @@ def run_impl(case):
 
 # ----------------------------------------------------------------------------- model side
 
+def _wants_pathsafe(f):
+    """flows that open scopes (when / await groups), of moderate size: run the PROVED path-level checker on the real output"""
+    return len(f["prog"]) <= 400 and any(p[0] == "begin" for p in f["prog"]) and not f["oracle"]
+
+
 def model_requests(case, obs):
     reqs = []
     if obs.get("witness"):
@@ -1111,6 +1116,8 @@ def model_requests(case, obs):
         if obs["version"] == "2.x":
             if "prog" in f:
                 reqs.append({"m": "C12.closed", "prog": f["prog"], "lookups": [k for k, _ in f["labels"]]})
+                if _wants_pathsafe(f):
+                    reqs.append({"m": "C12.pathsafe", "prog": f["prog"]})
                 if "stmts" in f:
                     reqs.append({"m": "C12.expand", "stmts": f["stmts"]})
         else:
@@ -1195,6 +1202,10 @@ def compare(case, obs, mouts):
                 return f"flow {f['id']}: Lean checker says closed={m['closed']} ({m['why']}), from-scratch scan says {f['oracle'][:1] or 'closed'}"
             if m["lookups"] != [v for _, v in f["labels"]]:
                 return f"flow {f['id']}: model label table {m['lookups']} differs from FlowConfig.element_labels {f['labels']}"
+            if _wants_pathsafe(f):
+                mp = next(it)
+                if mp["safe"] != (not f.get("oracle_paths")):
+                    return f"flow {f['id']}: proved path checker says safe={mp['safe']} ({mp['states']} heads), path-level scan says {f.get('oracle_paths', [])[:1] or 'no scope re-opened'}"
             if "stmts" in f:
                 m2 = next(it)
                 if canon_labels(m2["prog"]) != canon_labels(f["prog"]):
